@@ -11,7 +11,7 @@ import (
 	"verif/checker/ssax"
 )
 
-func init() { Registry["C12"] = Spec{Run: runC12} }
+func init() { Registry["C12"] = Spec{Run: runC12, Packages: []string{"cache"}} }
 
 func origin(v ssa.Value) ssa.Value { return ssax.Origin(v) }
 
